@@ -43,9 +43,9 @@ CHECKS = {
         "all BOS paths; every enumerated sequence is replayed on ONE recycled real Lattice object (totals and EOS compared); whole analyses over generated "
         "dictionaries (random non-square matrices, extreme costs, homographs, overlaps) and the fixture dictionary are trace-validated: each insert must satisfy the "
         "recurrence over exactly the nodes inserted in this run, node parameters must equal the lexicon source, the chosen path must tile the text with recomputed "
-        "cumulative costs and reach the lattice minimum incl. BOS/EOS connections, mode-C morpheme costs must equal those sums; lattices up to 14 nodes are also brute-forced.",
+        "cumulative costs and reach the lattice minimum incl. BOS/EOS connections, mode-C morpheme costs must equal those sums; lattices up to 14 nodes are also brute-forced. Analysis.tla fixes what the candidate words are (the lattice-building loop as composition of index, word-start table and lattice; TLC: processing reachable positions only loses no segmentation) and the same recorded analyses are validated against it: the dictionary candidates inserted at every reachable position are exactly the lexicon's prefix matches with a permitted end, computed by TLC from the CSV keys. UserCost.tla specifies the costs the loader computes for user words declared -32768; the loader's own hook events and its inner analyses are validated.",
    note="Trusted: TLC, JSON bridge, hook H2/H3 placement, the driver's rendering of matrix/lexicon sources. Ties are never compared. Brute force beyond 14 nodes is replaced by the per-insert recurrence (shown equivalent by MC within bounds).",
-   technique="TLA+ spec Lattice (ViterbiInv/EosOptimal vs brute force) + TLC; S->I replay on the real Lattice; I->S trace validation (Trace_Lattice)",
+   technique="TLA+ spec Lattice (ViterbiInv/EosOptimal vs brute force) + TLC; S->I replay on the real Lattice; I->S trace validation (Trace_Lattice); Analysis + UserCost modules with their own trace validation",
    design="4 C02"),
  "C04": dict(
    category="model_checking",
@@ -63,10 +63,10 @@ CHECKS = {
         "accessors; TLC checks RoundTrip for a target row ranging over the whole value lattice (key vs headword, forms equal/different, dictionary form */self/other, "
         "empty/non-empty arrays, string lengths across the 1-byte/2-byte length-prefix boundary); every enumerated lexicon is compiled by the real DictBuilder twice with a fixed "
         "timestamp (byte equality), loaded aligned and at an odd address, and every word read back and compared with TLC's expected values; generated lexicons (126..300 UTF-16 unit "
-        "strings, astral characters, \\u escapes, 0/127-item arrays, numeric and inline references, extreme parameters) with random non-square matrices are trace-validated, incl. every matrix cell.",
+        "strings, astral characters, \\u escapes, 0/127-item arrays, numeric and inline references, extreme parameters) with random non-square matrices are trace-validated, incl. every matrix cell. BuildFrontEnds.tla: `sudachi build/ubuild` and sudachipy.build_system_dic/build_user_dic have the library's outcome and write a byte-identical body with the given description (real runs on generated sources incl. refused ones).",
    note="Trusted: TLC, JSON bridge, the CSV rendering of the drivers. Byte layout is not compared (only read-back observables). Inline references judged only where key = headword. "
         "Dictionaries without the synonym section are covered on the model only.",
-   technique="TLA+ spec DictRecord (RoundTrip) + TLC; S->I replay through real compile/load/read-back; I->S trace validation (Trace_DictRecord)",
+   technique="TLA+ spec DictRecord (RoundTrip) + TLC; S->I replay through real compile/load/read-back; I->S trace validation (Trace_DictRecord); front ends of the compiler validated against the library (Trace_BuildFrontEnds)",
    design="4 C05"),
  "C11": dict(
    category="model_checking",
@@ -154,7 +154,7 @@ CHECKS = {
         "numeral plugin may replace a single numeral's normalised form). MC_PathRewrite.tla transcribes both index loops (restart indices, comma/period modes, NOOOVBOW skipping) on top of the "
         "transcribed numeral parser and TLC checks IsMerge and termination for all paths of up to 4 (thorough 5) one-character tokens over 11 token kinds x minLength x enableNormalize. Every "
         "enumerated path is also run through the real plugins: the recorded paths before/after each plugin (hook H3) are trace-validated against IsMerge; recorded analyses under 6 plugin "
-        "settings/orders are validated the same way and their boundaries compared with the analysis without path-rewrite plugins.",
+        "settings/orders are validated the same way and their boundaries compared with the analysis without path-rewrite plugins. Analyses in modes A/B and the split stage after the plugins are validated too: a token made by a merge has no declared units and is reported as merged.",
    note="Trusted: TLC, JSON bridge, hook H3. Exact agreement of the transcribed loops with the real plugins is drift only (C14 does not fix which runs are joined).",
    technique="TLA+ spec PathRewrite (IsMerge) + transcribed loops model-checked by TLC; I->S trace validation of hook-recorded paths (Trace_PathRewrite), incl. all TLC-enumerated inputs",
    design="4 C14"),
@@ -177,7 +177,7 @@ CHECKS = {
         "hence its result is a function of text, mode and request) over all histories of up to 4 (thorough 5) operations. Every such history - set_mode, set_subset, analyses of an empty / short "
         "/ longer / over-long text, collects into ONE reused list - is executed on ONE real tokenizer under two plugin configurations, each analysis next to a freshly created tokenizer with the same "
         "mode and request; TLC validates the recorded trace: outcomes equal the fresh ones (a failed analysis leaves the tokenizer usable) and every collected list equals the fresh result of "
-        "the analysis it holds, on boundaries, word identities and every requested field. Seeded random histories of up to 40 operations over real-Unicode texts are validated likewise.",
+        "the analysis it holds, on boundaries, word identities and every requested field. Seeded random histories of up to 40 operations over real-Unicode texts are validated likewise. For default field requests the fresh twin is, every other time, the stateless API (Tokenize::tokenize).",
    note="Trusted: TLC, JSON bridge. The reference is the fresh tokenizer the statement names (run by the driver). Extra fields left loaded by earlier mode changes are not compared.",
    technique="TLA+ spec Tokenizer (NoStaleRead) + TLC enumeration of all short histories, executed on the real tokenizer; I->S trace validation with fresh twins (Trace_Tokenizer)",
    design="4 C10"),
@@ -216,12 +216,12 @@ CHECKS = {
         "field subsets and the 7 projections; after every call all live lists, handles and tokenizer modes are observed and the trace (library results recorded from the Rust core by `vh c19-lib`) "
         "is validated by TLC, including text[begin:end] = raw surface in code points. Cli.tla specifies the command-line tool as a line-by-line stream processor (terminator stripping, sentence "
         "splitting, column / -a / -w formats); TLC checks the line discipline for every input <= 4 (6) over {x, CR, LF}, every such input and random multi-line files are fed to the real binary and "
-        "stdout must equal Run(input) computed by TLC from the library's own sentences and morphemes.",
+        "stdout must equal Run(input) computed by TLC from the library's own sentences and morphemes. BindingsPos.tla adds POS matchers (patterns, predicates, | & - ~, verdicts on every live morpheme) and the HuggingFace pre-tokenizer (through a stand-in module); ConfigResolve.tla specifies how -r/-p/-l assemble a configuration and resolve resource names, and all 4608 scenarios TLC enumerates are set up on disk for the real Config.",
    note="Trusted: TLC, JSON bridge, the Python driver's reading of accessors, `vh c19-lib` (the core library asked with the same field request). Not covered: the HuggingFace pre-tokenizer "
         "(see C18), Dictionary construction options, the sudachipy command line wrapper, --split-sentences=only, lines longer than the input limit (the tool aborts). Three genuine defects "
         "found here were repaired (blank-line terminator, copy_slice input, NUL in lookups).",
    technique="TLA+ specs Bindings and Cli + TLC over all short call histories / terminator patterns; S->I execution of every enumerated history on the real extension and binary; I->S trace validation "
-             "(Trace_Bindings, Trace_Cli) against results recorded from the Rust core",
+             "(Trace_Bindings, Trace_Cli) against results recorded from the Rust core; POS matchers, pre-tokenizer and configuration resolution (S->I of 4608 scenarios)",
    design="4 C19"),
  "C18": dict(
    category="model_checking",
